@@ -146,6 +146,25 @@ func (k Keeper) ChangeToVerifiedFromProofPeriod(ctx sdk.Context, duration time.D
 				k.Logger.Error("failed to send coins to publisher", "publisher", publisher.String(), "metadata_uri", data.MetadataUri, "error", err)
 				continue
 			}
+			// the challenges stayed below the threshold: refund the recorded challengers and remove their records
+			invalidities, err := k.GetInvalidities(ctx, data.MetadataUri)
+			if err != nil {
+				k.Logger.Error("failed to get invalidity", "metadata_uri", data.MetadataUri, "error", err)
+				continue
+			}
+			for _, invalidity := range invalidities {
+				challenger := sdk.MustAccAddressFromBech32(invalidity.Sender)
+				err = k.BankKeeper.SendCoinsFromModuleToAccount(ctx, types.ModuleName, challenger, data.SubmitInvalidityCollateral)
+				if err != nil {
+					k.Logger.Error("failed to send coins to challenger", "challenger", challenger.String(), "metadata_uri", data.MetadataUri, "error", err)
+					continue
+				}
+				err = k.DeleteInvalidity(ctx, invalidity.MetadataUri, challenger)
+				if err != nil {
+					k.Logger.Error("failed to delete invalidity", "metadata_uri", invalidity.MetadataUri, "sender", invalidity.Sender, "error", err)
+					continue
+				}
+			}
 		}
 	}
 	return nil
